@@ -64,9 +64,12 @@ def add_formatter_keys(project):
     different run-time helpers per family (`*_to_formatter`, `*_to_display`, `*_to_view`)."""
     cfg = project["cfg"]
     ns = (cfg.get("namespaces") or [None])[0]
+    locales = gen.effective_locales(cfg)
     for (n, loc), tree in project["data"].items():
         if n != ns:
             continue
+        if len(locales) >= 2 and loc == locales[-1]:
+            continue      # the last locale has none of these keys: it renders another locale's value with its own formatters
         for i, (name, args, _) in enumerate(FMT_KEYS):
             tree.append(["zz_fmt%d" % i, {"k": "tmpl", "segs": [{"s": "text", "v": "%s f%d: " % (loc, i)},
                                                                 {"s": "var", "name": "v", "fmt": {"name": name, "args": args}}, {"s": "text", "v": " ."}]}])
@@ -78,7 +81,7 @@ def add_formatter_observations(crate, project, rng):
     locales = gen.effective_locales(cfg)
     for i, (name, args, vkind) in enumerate(FMT_KEYS):
         kp = e2e.key_path_tokens(ns, ["zz_fmt%d" % i])
-        for loc in rng.sample(locales, min(2, len(locales))):
+        for loc in ([locales[-1]] + rng.sample(locales[:-1], 1) if len(locales) >= 2 else locales):
             lv = "Locale::" + e2e.ident(loc)
             for val in FMT_VALUES[vkind]:
                 oid = crate.next_id
@@ -131,8 +134,7 @@ def add_observations(crate, project, ptable, rng, max_keys=40):
             full = ai == 0
             loc = locales[rng.randrange(len(locales))]
             eff, rn = per_loc[loc]
-            if c01.plural_ambiguous(rn, cvals, loc, eff, ptable):
-                continue
+            # (no skip of the locale pairs whose plural categories differ: C02 compares flavours with each other, not with the model)
             lv = "Locale::" + e2e.ident(loc)
             sa = e2e.args_tokens(args, cvals, allc, "string")
             va = e2e.args_tokens(args, cvals, allc, "view")
